@@ -124,7 +124,9 @@ class C01(WithEL):
             "(el: a refused op and a queue of >= 4)")
     assumptions = ["a TimerHandler is configured where callback times are judged (without one current_time() is 0 by design)",
                    "times are dyadic (ticks/1024), so float and integer clocks coincide"]
-    force_cfg = {"hasTimer": True}
+    force_cfg = {"hasTimer": True, "failRate": fbits(0.0), "defaultRange": fbits(1.0e6)}
+    profile = {"w": {"setTimer": 5, "cancelTimer": 0, "send": 3, "broadcast": 2, "goto": 1, "setSpeed": 0.5,
+                     "setRange": 0, "gotoGeo": 0}}
 
     def obs(self, case, res):
         cbs = parse(res["trace"])
@@ -208,7 +210,10 @@ class C02(WithEL):
     rule = ("EventLoop API histories (up to 400 ops, interleaved clears; thorough: every history of <= 5 ops over 3 "
             "timestamps) + simulations run to exhaustion; non-trivial = queue size >= 4 at some point and >= 1 refused op "
             "(sim: run to exhaustion with >= 8 executed events)")
-    force_cfg = {"hasMob": False, "duration": None, "maxIter": None, "hasTimer": True}
+    force_cfg = {"hasMob": False, "duration": None, "maxIter": None, "hasTimer": True, "failRate": fbits(0.0),
+                 "defaultRange": fbits(1.0e6)}
+    profile = {"w": {"setTimer": 5, "cancelTimer": 0, "send": 3, "broadcast": 2, "goto": 0, "setSpeed": 0,
+                     "setRange": 0, "gotoGeo": 0}}
     drive = {"mode": "start"}
 
     def tweak(self, r, scn):
@@ -300,7 +305,7 @@ class C03(WithEL):
     rule = ("tie-heavy EventLoop histories (2-3 timestamps, bursts, removals in between) + simulations with bursts of "
             "same-instant timers and sends on one link; non-trivial = a tie group of size >= 4")
     profile = {"offsets": [0, 0, 1024, 1024, 1024, 2048, 2048], "maxReq": 5, "budget": 80,
-               "w": {"setTimer": 6, "cancelTimer": 0.5, "send": 5, "broadcast": 2, "goto": 0.3, "setSpeed": 0,
+               "w": {"setTimer": 6, "cancelTimer": 0, "send": 5, "broadcast": 2, "goto": 0.3, "setSpeed": 0,
                      "setRange": 0, "gotoGeo": 0}}
     force_cfg = {"hasTimer": True, "failRate": fbits(0.0), "defaultRange": fbits(100000.0)}
 
@@ -332,6 +337,9 @@ class C04(SimCheck):
             "the implementation; non-trivial = a bound actually cut the run")
     assumptions = ["0 <= duration"]
     drive = None
+    force_cfg = {"failRate": fbits(0.0), "defaultRange": fbits(1.0e6)}
+    profile = {"w": {"setTimer": 5, "cancelTimer": 0, "send": 3, "broadcast": 2, "goto": 1, "setSpeed": 0.5,
+                     "setRange": 0, "gotoGeo": 0}}
 
     def tweak(self, r, scn):
         cfg = scn["cfg"]
@@ -427,7 +435,9 @@ class C05(SimCheck):
     rule = ("0-3 recording handlers plus any subset of the real timer/communication/mobility handlers, 1-5 nodes, all "
             "termination causes, blocking start vs manual stepping with extra steps after completion, finish callbacks "
             "that schedule timers; non-trivial = >= 2 handlers, >= 2 nodes, the run completed and was stepped further")
-    profile = {"pFinish": 0.9}
+    profile = {"pFinish": 0.9, "w": {"setTimer": 5, "cancelTimer": 0, "send": 3, "broadcast": 2, "goto": 1,
+                                      "setSpeed": 0.5, "setRange": 0, "gotoGeo": 0}}
+    force_cfg = {"failRate": fbits(0.0), "defaultRange": fbits(1.0e6)}
 
     def tweak(self, r, scn):
         if scn["drive"]["mode"] == "steps":
@@ -560,7 +570,7 @@ class C07(SimCheck):
     rule = ("1-4 nodes, 3 timer names, histories of set/cancel issued from initialize, packet and timer handlers (same and "
             "other names, same-instant sets); non-trivial = a cancel suppressed a pending timer while another name or node "
             "kept one, and a set or cancel was issued from inside a timer handler")
-    force_cfg = {"hasTimer": True}
+    force_cfg = {"hasTimer": True, "failRate": fbits(0.0), "defaultRange": fbits(1.0e6)}
     profile = {"w": {"setTimer": 6, "cancelTimer": 3, "send": 1.5, "broadcast": 0.7, "goto": 0.2, "setSpeed": 0,
                      "setRange": 0, "gotoGeo": 0}, "maxReq": 4, "budget": 90}
 
@@ -661,7 +671,7 @@ class C08(SimCheck):
             "unknown, None) from initialize, timer, packet and telemetry handlers; non-trivial = >= 3 nodes, >= 1 broadcast, "
             ">= 2 messages in flight at once")
     force_cfg = {"hasComm": True, "failRate": fbits(0.0), "defaultRange": fbits(1.0e6), "hasTimer": True}
-    profile = {"w": {"setTimer": 3, "cancelTimer": 0.5, "send": 5, "broadcast": 3, "goto": 0.5, "setSpeed": 0.2,
+    profile = {"w": {"setTimer": 3, "cancelTimer": 0, "send": 5, "broadcast": 3, "goto": 0.5, "setSpeed": 0.2,
                      "setRange": 0, "gotoGeo": 0}, "pBadDst": 0.2, "maxReq": 4, "budget": 70}
 
     def tweak(self, r, scn):
@@ -701,9 +711,9 @@ class C12(SimCheck):
                   "positions and telemetry payloads.")
     rule = ("1-5 nodes moving and static, several update intervals, runs cut by duration / iteration limit / stepping; "
             "non-trivial = >= 2 nodes at different positions with >= 1 moving and >= 3 ticks")
-    force_cfg = {"hasMob": True, "hasTimer": True}
+    force_cfg = {"hasMob": True, "hasTimer": True, "failRate": fbits(0.0), "defaultRange": fbits(1.0e6)}
     want_pos = True
-    profile = {"w": {"setTimer": 2, "cancelTimer": 0.3, "send": 1, "broadcast": 0.5, "goto": 4, "setSpeed": 1.5,
+    profile = {"w": {"setTimer": 2, "cancelTimer": 0, "send": 1, "broadcast": 0.5, "goto": 4, "setSpeed": 1.5,
                      "setRange": 0, "gotoGeo": 0}, "pTelemetry": 0.2}
 
     def tweak(self, r, scn):
